@@ -1,5 +1,6 @@
 (* C16: the filter succeeds on every document whose region geometry is well typed (style_properties.py validate: origin,
-   extent and position are of their value class and not in em), outside the recorded trigger lcd-position. *)
+   extent and position are of their value class and not in em, an extent has its height in %/px/c/rh and its width in
+   %/px/c/rw).  Since fix d8691ec there is no trigger: tts:position is computed after the extent. *)
 From TT Require Import Model.Doc Gen.StyleTables Model.Isd Model.Lcd Spec.IsdSpec Spec.LcdSpec Model.LcdCases
   Proofs.Common.ElemInd Proofs.C16.Basics Proofs.C16.Prov Proofs.C16.Static Proofs.C16.Refs Proofs.C16.Idem.
 
@@ -31,24 +32,34 @@ Proof.
   destruct (compute_length_ok y (rh (qz 100)) None (c_h d) (px_h d) Hy) as [y' ->].
   destruct (compute_length_ok x (rw (qz 100)) None (c_w d) (px_w d) Hx) as [x' ->]. cbn [bind]. eexists. eexists. reflexivity.
 Qed.
-Lemma compute_extent_ok d st h w : sget st p_Extent = Some (VExtent h w) -> not_em h = true -> not_em w = true ->
-  exists h' w', compute_prop d None st p_Extent = Ok (sset st p_Extent (VExtent h' w')).
+Lemma compute_height_ok l q em d : height_unit l = true ->
+  exists l', compute_length l (Some (rh q)) em (Some (c_h d)) (Some (px_h d)) = Ok l' /\ lu l' = Urh.
+Proof.
+  unfold height_unit, not_em, compute_length. destruct l as [v u]. cbn [lu lv]. destruct u; cbn; try discriminate; intros _; eexists; split; reflexivity.
+Qed.
+Lemma compute_width_ok l q em d : width_unit l = true ->
+  exists l', compute_length l (Some (rw q)) em (Some (c_w d)) (Some (px_w d)) = Ok l' /\ lu l' = Urw.
+Proof.
+  unfold width_unit, not_em, compute_length. destruct l as [v u]. cbn [lu lv]. destruct u; cbn; try discriminate; intros _; eexists; split; reflexivity.
+Qed.
+Lemma compute_extent_ok d st h w : sget st p_Extent = Some (VExtent h w) -> height_unit h = true -> width_unit w = true ->
+  exists h' w', compute_prop d None st p_Extent = Ok (sset st p_Extent (VExtent h' w')) /\ lu h' = Urh /\ lu w' = Urw.
 Proof.
   intros H Hh Hw. unfold compute_prop.
   change (p_Extent =? p_FontSize) with false. change (p_Extent =? p_Extent) with true.
   cbv iota. rewrite H.
-  destruct (compute_length_ok h (rh (qz 100)) (get_len st p_FontSize) (c_h d) (px_h d) Hh) as [h' ->].
-  destruct (compute_length_ok w (rw (qz 100)) (get_len st p_FontSize) (c_w d) (px_w d) Hw) as [w' ->]. cbn [bind]. eexists. eexists. reflexivity.
+  destruct (compute_height_ok h (qz 100) (get_len st p_FontSize) d Hh) as [h' [-> Uh]].
+  destruct (compute_width_ok w (qz 100) (get_len st p_FontSize) d Hw) as [w' [-> Uw]]. cbn [bind]. exists h', w'. auto.
 Qed.
 Lemma compute_position_ok d st ho he vo ve eh ew :
   sget st p_Position = Some (VPos ho he vo ve) -> not_em ho = true -> not_em vo = true ->
-  sget st p_Extent = Some (VExtent eh ew) -> unit_eqb (lu eh) Urh && unit_eqb (lu ew) Urw = true ->
+  sget st p_Extent = Some (VExtent eh ew) -> lu eh = Urh -> lu ew = Urw ->
   exists x y v, compute_prop d None st p_Position = Ok (sset (sset st p_Origin (VCoord x y)) p_Position v).
 Proof.
-  intros H Hh Hv He Hu. unfold compute_prop.
+  intros H Hh Hv He Uh Uw. unfold compute_prop.
   change (p_Position =? p_FontSize) with false. change (p_Position =? p_Extent) with false.
   change (p_Position =? p_Origin) with false. change (p_Position =? p_Position) with true.
-  cbv iota. rewrite H, He, Hu. cbn [negb].
+  cbv iota. rewrite H, He, Uh, Uw. cbn [negb unit_eqb andb].
   destruct (compute_length_ok vo (rh (Qminus (qz 100) (lv eh))) None (c_h d) (px_h d) Hv) as [v1 ->]. cbn [bind].
   destruct (compute_length_ok ho (rw (Qminus (qz 100) (lv ew))) None (c_w d) (px_w d) Hh) as [h1 ->]. cbn [bind].
   eexists. eexists. eexists. reflexivity.
@@ -59,85 +70,90 @@ Proof.
   unfold inits_typed, init_or, is_coord. intros H. apply andb_true_iff in H as [H _].
   destruct (sget inits p_Origin) as [[]|]; try discriminate; eexists; eexists; reflexivity.
 Qed.
-Lemma init_or_extent inits : inits_typed inits = true -> is_extent (Some (init_or inits p_Extent)).
+Lemma init_or_extent inits : inits_typed inits = true ->
+  exists h w, init_or inits p_Extent = VExtent h w /\ height_unit h = true /\ width_unit w = true.
 Proof.
-  unfold inits_typed, init_or, is_extent. intros H. apply andb_true_iff in H as [_ H].
-  destruct (sget inits p_Extent) as [[]|]; try discriminate; eexists; eexists; reflexivity.
+  unfold inits_typed, init_or. intros H. apply andb_true_iff in H as [_ H].
+  destruct (sget inits p_Extent) as [[]|]; try discriminate.
+  - apply andb_true_iff in H as [Hh Hw]. eexists. eexists. split; [reflexivity | split; assumption].
+  - eexists. eexists. split; [vm_compute; reflexivity | split; vm_compute; reflexivity].
 Qed.
 
 Lemma region_pre_ok d inits st : geometry_typed st = true -> inits_typed inits = true ->
-  (shas st p_Position = true -> exists eh ew, sget st p_Extent = Some (VExtent eh ew) /\ unit_eqb (lu eh) Urh && unit_eqb (lu ew) Urw = true) ->
   exists s, region_pre d inits st = Ok s /\ is_coord (sget s p_Origin) /\ is_extent (sget s p_Extent).
 Proof.
-  intros Ht Hi Hpos. unfold geometry_typed in Ht. apply andb_true_iff in Ht as [Ht Tp]. apply andb_true_iff in Ht as [To Te].
+  intros Ht Hi. unfold geometry_typed in Ht. apply andb_true_iff in Ht as [Ht Tp]. apply andb_true_iff in Ht as [To Te].
   unfold region_pre.
+  (* extent: default, then computed into rh / rw *)
+  set (s0 := if shas st p_Extent then st else sset st p_Extent (init_or inits p_Extent)).
+  assert (exists h w, sget s0 p_Extent = Some (VExtent h w) /\ height_unit h = true /\ width_unit w = true) as [h [w [X0 [Uh Uw]]]].
+  { unfold s0, shas. destruct (sget st p_Extent) as [v|] eqn:Ee.
+    - destruct v; try discriminate. apply andb_true_iff in Te as [Th Tw]. eexists. eexists. split; [exact Ee | split; assumption].
+    - destruct (init_or_extent _ Hi) as [h [w [E [Th Tw]]]]. exists h, w. rewrite sget_sset_eq, E. auto. }
+  assert (sget s0 p_Origin = sget st p_Origin /\ sget s0 p_Position = sget st p_Position) as [O0 P0].
+  { unfold s0. destruct (shas st p_Extent); [split; reflexivity | split; apply sget_sset_neq; discriminate]. }
+  destruct (compute_extent_ok d s0 h w X0 Uh Uw) as [h' [w' [E1 [Uh' Uw']]]]. rewrite E1. cbn [bind].
+  set (s1 := sset s0 p_Extent (VExtent h' w')).
+  assert (sget s1 p_Extent = Some (VExtent h' w')) as X1 by apply sget_sset_eq.
+  assert (sget s1 p_Origin = sget st p_Origin) as O1 by (unfold s1; rewrite sget_sset_neq by discriminate; exact O0).
+  assert (sget s1 p_Position = sget st p_Position) as P1 by (unfold s1; rewrite sget_sset_neq by discriminate; exact P0).
   (* origin *)
-  assert (exists s1, (if shas st p_Origin then compute_prop d None st p_Origin else Ok st) = Ok s1 /\
-                     (sget s1 p_Origin = None \/ is_coord (sget s1 p_Origin)) /\
-                     sget s1 p_Extent = sget st p_Extent /\ sget s1 p_Position = sget st p_Position) as [s1 [E1 [O1 [X1 P1]]]].
-  { unfold shas. destruct (sget st p_Origin) as [v|] eqn:Eo.
+  assert (exists s2, (if shas s1 p_Origin then compute_prop d None s1 p_Origin else Ok s1) = Ok s2 /\
+                     (sget s2 p_Origin = None \/ is_coord (sget s2 p_Origin)) /\
+                     sget s2 p_Extent = Some (VExtent h' w') /\ sget s2 p_Position = sget st p_Position) as [s2 [E2 [O2 [X2 P2]]]].
+  { unfold shas. rewrite O1. destruct (sget st p_Origin) as [v|] eqn:Eo.
     - destruct v; try discriminate. apply andb_true_iff in To as [Tx Ty].
-      destruct (compute_origin_ok d st _ _ Eo Tx Ty) as [x' [y' E]]. eexists. split; [exact E|].
-      split; [right; rewrite sget_sset_eq; eexists; eexists; reflexivity|]. split; apply sget_sset_neq; discriminate.
-    - exists st. split; [reflexivity|]. split; [left; exact Eo|]. split; reflexivity. }
-  rewrite E1. cbn [bind].
+      assert (sget s1 p_Origin = Some (VCoord x y)) as Eo1 by (rewrite O1; reflexivity).
+      destruct (compute_origin_ok d s1 _ _ Eo1 Tx Ty) as [x' [y' E]]. eexists. split; [exact E|].
+      split; [right; rewrite sget_sset_eq; eexists; eexists; reflexivity|].
+      split; [rewrite sget_sset_neq by discriminate; exact X1 | rewrite sget_sset_neq by discriminate; exact P1].
+    - exists s1. split; [reflexivity|]. split; [left; rewrite O1; reflexivity|]. split; [exact X1 | exact P1]. }
+  rewrite E2. cbn [bind].
   (* position *)
-  assert (exists s2, (if shas s1 p_Position then bind (compute_prop d None s1 p_Position) (fun st' => Ok (sdel st' p_Position)) else Ok s1) = Ok s2 /\
-                     (sget s2 p_Origin = None \/ is_coord (sget s2 p_Origin)) /\ sget s2 p_Extent = sget st p_Extent) as [s2 [E2 [O2 X2]]].
-  { assert (shas s1 p_Position = shas st p_Position) as Esh by (unfold shas; rewrite P1; reflexivity). rewrite Esh.
-    destruct (shas st p_Position) eqn:Ep.
-    - destruct (Hpos eq_refl) as [eh [ew [Hex Hu]]]. unfold shas in Ep. destruct (sget st p_Position) as [v|] eqn:Epv; [|discriminate].
-      destruct v; try discriminate. apply andb_true_iff in Tp as [Th Tv].
-      assert (sget s1 p_Position = Some (VPos h he v ve)) as Ep1 by (first [exact P1 | rewrite P1; exact Epv]).
-      assert (sget s1 p_Extent = Some (VExtent eh ew)) as Ex1 by (rewrite X1; exact Hex).
-      destruct (compute_position_ok d s1 _ _ _ _ _ _ Ep1 Th Tv Ex1 Hu) as [x [y [pv E]]]. rewrite E. cbn [bind]. eexists. split; [reflexivity|].
+  assert (exists s3, (if shas s2 p_Position then bind (compute_prop d None s2 p_Position) (fun st' => Ok (sdel st' p_Position)) else Ok s2) = Ok s3 /\
+                     (sget s3 p_Origin = None \/ is_coord (sget s3 p_Origin)) /\ sget s3 p_Extent = Some (VExtent h' w')) as [s3 [E3 [O3 X3]]].
+  { unfold shas. rewrite P2. destruct (sget st p_Position) as [v|] eqn:Epv.
+    - destruct v; try discriminate. apply andb_true_iff in Tp as [Th Tv].
+      assert (sget s2 p_Position = Some (VPos h0 he v ve)) as Ep2 by (rewrite P2; reflexivity).
+      destruct (compute_position_ok d s2 _ _ _ _ _ _ Ep2 Th Tv X2 Uh' Uw') as [x [y [pv E]]]. rewrite E. cbn [bind]. eexists. split; [reflexivity|].
       split.
       + right. rewrite sget_sdel_neq by discriminate. rewrite sget_sset_neq by discriminate. rewrite sget_sset_eq. eexists; eexists; reflexivity.
-      + rewrite sget_sdel_neq by discriminate. rewrite sget_sset_neq by discriminate. rewrite sget_sset_neq by discriminate. exact X1.
-    - exists s1. split; [reflexivity|]. split; [exact O1 | exact X1]. }
-  rewrite E2. cbn [bind].
-  set (s3 := if shas s2 p_Origin then s2 else sset s2 p_Origin (init_or inits p_Origin)).
-  assert (is_coord (sget s3 p_Origin) /\ sget s3 p_Extent = sget st p_Extent) as [O3 X3].
-  { unfold s3, shas. destruct O2 as [O2|O2].
-    - rewrite O2. split; [rewrite sget_sset_eq; exact (init_or_coord _ Hi) | rewrite sget_sset_neq by discriminate; exact X2].
-    - destruct O2 as [x [y O2]]. rewrite O2. split; [exists x, y; exact O2 | exact X2]. }
-  (* extent *)
-  unfold shas at 1. rewrite X3. destruct (sget st p_Extent) as [v|] eqn:Ee.
-  - destruct v; try discriminate. apply andb_true_iff in Te as [Th Tw].
-    assert (sget s3 p_Extent = Some (VExtent h w)) as Ex3 by (rewrite X3; reflexivity).
-    destruct (compute_extent_ok d s3 _ _ Ex3 Th Tw) as [h' [w' E]]. rewrite E. cbn [bind]. rewrite shas_sset_eq.
-    eexists. split; [reflexivity|]. split; [rewrite sget_sset_neq by discriminate; exact O3 | rewrite sget_sset_eq; eexists; eexists; reflexivity].
-  - cbn [bind]. unfold shas. rewrite X3. eexists. split; [reflexivity|].
-    split; [rewrite sget_sset_neq by discriminate; exact O3 | rewrite sget_sset_eq; exact (init_or_extent _ Hi)].
+      + rewrite sget_sdel_neq by discriminate. rewrite sget_sset_neq by discriminate. rewrite sget_sset_neq by discriminate. exact X2.
+    - exists s2. split; [reflexivity|]. split; [exact O2 | exact X2]. }
+  rewrite E3. cbn [bind]. eexists. split; [reflexivity|].
+  unfold shas. destruct O3 as [O3|O3].
+  - rewrite O3. split; [rewrite sget_sset_eq; exact (init_or_coord _ Hi) | rewrite sget_sset_neq by discriminate; rewrite X3; eexists; eexists; reflexivity].
+  - destruct O3 as [x [y O3]]. rewrite O3. split; [exists x, y; exact O3 | rewrite X3; eexists; eexists; reflexivity].
 Qed.
 
 Lemma region_layout_ok c d inits st : geometry_typed st = true -> inits_typed inits = true ->
-  (shas st p_Position = true -> exists eh ew, sget st p_Extent = Some (VExtent eh ew) /\ unit_eqb (lu eh) Urh && unit_eqb (lu ew) Urw = true) ->
   exists r, region_layout c d inits st = Ok r.
 Proof.
-  intros Ht Hi Hp. destruct (region_pre_ok d inits st Ht Hi Hp) as [s [E [[x [y Ho]] [h [w He]]]]].
+  intros Ht Hi. destruct (region_pre_ok d inits st Ht Hi) as [s [E [[x [y Ho]] [h [w He]]]]].
   unfold region_layout. rewrite E. cbn [bind]. unfold new_display_align. rewrite Ho, He. cbn [bind]. eexists. reflexivity.
 Qed.
 
-Lemma geometry_keep c m : geometry_typed (keep_styles c m) = geometry_typed m.
+Lemma sget_keep_rsupported c m p : rsupported c p = true -> sget (keep_rstyles c m) p = sget m p.
 Proof.
-  unfold geometry_typed. rewrite !sget_keep_supported; [reflexivity | | |]; unfold supported; cbn; reflexivity.
+  intros Hs. unfold keep_rstyles. induction m as [|[k w] m IH]; [reflexivity|]. cbn [filter fst sget].
+  destruct (rsupported c k) eqn:Ek; cbn [sget]; [rewrite IH; reflexivity|].
+  destruct (k =? p) eqn:E; [apply Z.eqb_eq in E; congruence | exact IH].
+Qed.
+Lemma geometry_keep c m : geometry_typed (keep_rstyles c m) = geometry_typed m.
+Proof.
+  unfold geometry_typed. rewrite !sget_keep_rsupported; [reflexivity | | |]; unfold rsupported, supported; cbn; rewrite ?orb_true_r; reflexivity.
 Qed.
 Lemma inits_keep c m : inits_typed (keep_styles c m) = inits_typed m.
 Proof. unfold inits_typed. rewrite !sget_keep_supported; [reflexivity | |]; unfold supported; cbn; reflexivity. Qed.
 
 Lemma lcd_regions_ok c d inits : inits_typed inits = true -> forall rs ret,
-  (forall r, In r rs -> geometry_typed (e_styles (eattrs r)) = true /\ region_position_trigger (eattrs r) = false) ->
+  (forall r, In r rs -> geometry_typed (e_styles (eattrs r)) = true) ->
   exists out, lcd_regions c d inits rs ret = Ok out.
 Proof.
   intros Hi. induction rs as [|r rs IH]; intros ret H; [eexists; reflexivity|].
-  destruct (H r (or_introl eq_refl)) as [Ht Hp]. cbn [lcd_regions].
-  assert (exists x, region_layout c d inits (e_styles (eattrs (style_elem c (anim_elem r)))) = Ok x) as [[[st wm] nda] E].
-  { rewrite eattrs_clean. cbn [e_styles style_attrs with_styles anim_attrs with_anims]. apply region_layout_ok; [rewrite geometry_keep; exact Ht | exact Hi|].
-    intros Hs. unfold shas in Hs. rewrite sget_keep_supported in Hs by (unfold supported; cbn; reflexivity).
-    unfold region_position_trigger, shas in Hp. destruct (sget (e_styles (eattrs r)) p_Position); [|discriminate]. cbn [andb] in Hp.
-    apply negb_false_iff in Hp. rewrite sget_keep_supported by (unfold supported; cbn; reflexivity).
-    destruct (sget (e_styles (eattrs r)) p_Extent) as [[]|]; try discriminate. eexists. eexists. split; [reflexivity | exact Hp]. }
+  pose proof (H r (or_introl eq_refl)) as Ht. cbn [lcd_regions].
+  assert (exists x, region_layout c d inits (e_styles (eattrs (rstyle_elem c (anim_elem r)))) = Ok x) as [[[st wm] nda] E].
+  { rewrite eattrs_clean. cbn [e_styles rstyle_attrs with_styles anim_attrs with_anims]. apply region_layout_ok; [rewrite geometry_keep; exact Ht | exact Hi]. }
   rewrite E. cbn [bind].
   destruct (lookup_fp ret _).
   - destruct (IH ret) as [out Eo]; [intros x Hx; apply H; right; exact Hx|]. rewrite Eo. eexists. reflexivity.
@@ -145,11 +161,23 @@ Proof.
     rewrite Eo. eexists. reflexivity.
 Qed.
 
-Theorem total_partial_thm c d : lcd_typed d = true -> trig_position d = false -> exists d', lcd c d = Ok d'.
+(* since fix d8691ec: no trigger *)
+Theorem total_thm c d : lcd_typed d = true -> exists d', lcd c d = Ok d'.
 Proof.
-  unfold lcd_typed. intros Ht Hp. apply andb_true_iff in Ht as [Hr Hi].
-  rewrite forallb_forall in Hr. unfold trig_position in Hp. pose proof (existsb_false_forall _ _ Hp) as Hp'. cbv beta in Hp'.
+  unfold lcd_typed. intros Ht. apply andb_true_iff in Ht as [Hr Hi].
+  rewrite forallb_forall in Hr.
   destruct (lcd_regions_ok c d (keep_styles c (d_initials d)) (eq_trans (inits_keep c _) Hi) (d_regions d) []) as [out Eo].
-  { intros r Hin. split; [exact (Hr _ Hin) | exact (Hp' _ Hin)]. }
+  { intros r Hin. exact (Hr _ Hin). }
   unfold lcd. rewrite Eo. cbn [bind]. eexists. reflexivity.
+Qed.
+
+(* totality and the timeline theorem together *)
+From TT Require Import Proofs.C16.Tree Proofs.C16.Chains Proofs.C16.Counting Proofs.C16.Alias Proofs.C16.Timeline1 Proofs.C16.Timeline2 Proofs.C16.Timeline3.
+Theorem total_timeline_thm c d t :
+  lcd_typed d = true -> regions_have_ids d -> NoDup (rids (d_regions d)) -> refs_in_doc d ->
+  no_hiding_b d = true -> trig_nested c d = false ->
+  exists d', lcd c d = Ok d' /\ timeline_at d d' t.
+Proof.
+  intros Ht Hids Hnd Hrefs Hh Hn. destruct (total_thm c d Ht) as [d' E]. exists d'. split; [exact E|].
+  exact (timeline_thm c d d' t E Hids Hnd Hrefs Hh Hn).
 Qed.
